@@ -114,6 +114,14 @@ DataP2C(id, pay) ==
             /\ conn' = [conn EXCEPT ![id].held = Append(@, pay)] /\ UNCHANGED <<alloc, perm, nextId>>
             /\ out' = {}
 
+(* both directions of a bound pair carry a large volume at the same time while neither receiver reads:
+   the relay's two copy loops stall mid-write (flow control); each stream still arrives whole and in order *)
+Duplex(id) ==
+  /\ conn[id].open /\ conn[id].bound
+  /\ last' = [a |-> "Duplex", id |-> id]
+  /\ UNCHANGED state
+  /\ out' = {[k |-> "duplex", id |-> id]}
+
 (* either side of a bound pair closes: both connections end, the id is gone *)
 CloseData(id, side) ==
   /\ conn[id].open /\ conn[id].bound
@@ -178,6 +186,7 @@ LiveNext ==
   \/ \E c \in Clients, p \in Peers : PeerConnect(c, p)
   \/ \E u \in Users, id \in Ids \cup {0} : ConnectionBind(u, id)
   \/ \E id \in Ids, pay \in {"x", "y"} : DataC2P(id, pay) \/ DataP2C(id, pay)
+  \/ \E id \in Ids : Duplex(id)
   \/ \E id \in Ids, side \in {"client", "peer"} : CloseData(id, side)
   \/ \E c \in Clients : ControlClose(c)
   \/ \E d \in Jumps : Advance(d)
